@@ -58,6 +58,9 @@ def check(prog, rep, tier):
                       'received counter and the hold timer: no close, no NOTIFICATION, state unchanged')
     rep.rule('R10.d', 'stateless decoders: no function of yabgp/message/** writes module-level, class-level '
                       'or configuration state (registries are filled by decorators at import only)')
+    rep.rule('R10.e', 'clean close: once the session is Idle (closed, restart pending) further input in the same '
+                      'chunk produces no message, no second close and no state change')
+    rep.rule('R10.f', 'no endless loop in the OPEN decoder (loop progress, as C11 R11.a; UPDATE decoders are C11)')
     rep.assumptions += ['resource exhaustion other than non-termination (C11) is not decided',
                         'struct.unpack on truncated data and the opaque Update.parse/construct are modelled as '
                         'possibly raising; other library calls are assumed not to raise']
@@ -183,14 +186,73 @@ def check(prog, rep, tier):
     else:
         rep.ok('R10.c', 'update-path', file=PROTO)
 
+    # ---------------------------------------------------------------- R10.e
+    from .. import profile as P
+    seen_e = {}
+    for r in tab.get('WIRE', 'Idle'):
+        name = 'idle-silent:%s' % r.wire['cls']
+        if r.kind == 'raise':
+            continue
+        okp, probs, alt = P.evaluate([P.IGNORE], r)
+        if okp:
+            if name not in seen_e:
+                seen_e[name] = 'ok'
+                rep.ok('R10.e', name, file=PROTO, line=common.row_line(r))
+        elif seen_e.get(name) != 'bad':
+            seen_e[name] = 'bad'
+            rep.bad('R10.e', name, file=common.row_file(r), line=common.row_line(r), func=common.row_func(r),
+                    found='input processed after the session was closed (state Idle): ' + '; '.join(probs),
+                    expected='ignored', key=name, path=r.describe())
+    # ---------------------------------------------------------------- R10.f
+    from . import c11
+    for f2 in prog.all_functions():
+        if f2.module.name != 'yabgp.message.open':
+            continue
+        ws = [n for n in ast.walk(f2.node) if isinstance(n, ast.While)]
+        if not ws:
+            continue
+        obs = {id(w): [] for w in ws}
+        err = c11.analyse(prog, f2, ws, obs, 8)
+        for i, w in enumerate(sorted(ws, key=lambda n: n.lineno)):
+            key = 'loop:%s#%d' % (f2.qualname, i)
+            if err:
+                rep.undecided('R10.f', key, file=f2.file, line=w.lineno, found=err)
+                continue
+            badp = None
+            for res, path in obs[id(w)]:
+                if not any(x[1] == 'yes' for x in res):
+                    badp = (res, path)
+            if badp:
+                rep.bad('R10.f', key, file=f2.file, line=w.lineno, func=f2.qualname,
+                        found='a path returns to `while %s` without consuming input: %s' % (
+                            src_of(w.test), '; '.join('%s: %s' % (x[0], x[2]) for x in badp[0])),
+                        expected='every iteration advances', key=key,
+                        path=[('%s' if b else 'not (%s)') % t for t, b in badp[1]])
+            else:
+                rep.ok('R10.f', key, file=f2.file, line=w.lineno, found='%d back-edge path(s)' % len(obs[id(w)]))
+
     # ---------------------------------------------------------------- R10.d
+    nfun, found = shared_state_writes(prog, lambda f: f.module.name.startswith('yabgp.message'))
+    for f, node, bad in found:
+        key = 'state:%s:%s' % (f.qualname, bad)
+        rep.bad('R10.d', key, file=f.file, line=node.lineno, func=f.qualname, found=bad,
+                expected='decoders keep no state between messages', key=key)
+    rep.floor('R10.d', 'functions of yabgp.message scanned', nfun, 200)
+    if not any(i.rule == 'R10.d' for i in rep.instances):
+        rep.ok('R10.d', 'yabgp.message', file='yabgp/message/', found='%d functions scanned, none writes shared state' % nfun)
+
+
+def shared_state_writes(prog, select):
+    """Functions that write module-level, class-level or configuration state.
+    -> (number of functions scanned, [(FuncInfo, node, description)])"""
+    out = []
     nfun = 0
     for f in prog.all_functions():
-        if not f.module.name.startswith('yabgp.message'):
+        if not select(f):
             continue
         nfun += 1
         mod_names = set(f.module.assigns) | set(f.module.classes)
-        local = set(f.params)
+        local = set(f.params) - {'cls'}
         for node in ast.walk(f.node):
             if isinstance(node, (ast.Assign, ast.AugAssign, ast.AnnAssign)):
                 tgts = node.targets if isinstance(node, ast.Assign) else [node.target]
@@ -235,9 +297,5 @@ def check(prog, rep, tier):
                         (root.id in mod_names or root.id in f.module.imports or root.id == 'cls'):
                     bad = 'mutates %s' % src_of(node.func.value)
             if bad and not is_register:
-                key = 'state:%s:%s' % (f.qualname, bad)
-                rep.bad('R10.d', key, file=f.file, line=node.lineno, func=f.qualname, found=bad,
-                        expected='decoders keep no state between messages', key=key)
-    rep.floor('R10.d', 'functions of yabgp.message scanned', nfun, 200)
-    if not any(i.rule == 'R10.d' for i in rep.instances):
-        rep.ok('R10.d', 'yabgp.message', file='yabgp/message/', found='%d functions scanned, none writes shared state' % nfun)
+                out.append((f, node, bad))
+    return nfun, out
